@@ -541,7 +541,8 @@ func ruleC18_alias(c *Ctx) {
 		}
 	}
 	s := a.analyse(f, ctx, nil)
-	for _, w := range s.writes {
+	keptW, _ := a4FilterReviewed(s.writes)
+	for _, w := range keptW {
 		c.bad(R, fname(w.fn), "write "+w.path, w.instr.Pos(), "SubstituteParameters writes through memory of its layout/dictionary arguments: the caller's layout is modified")
 	}
 	c.ok(R, fname(f), "effects summary", f.Pos(), fmt.Sprintf("%d contexts, %d argument-memory writes", len(a.memo), len(s.writes)))
